@@ -208,6 +208,17 @@ def run(F, R):
                         someE.append((sb, tgt))
         R.check("C10-R3", "helper-filters-by-map", someE and hv.dominated_by_edge(bi, someE), "add_event only for apps present in the offered-update map", "the helper adds events for apps that were not offered an update", lib.loc(hv, bi))
         R.check("C10-R3", "helper-app-is-loop-item", "next(into_iter(" in app, "event added to the app being iterated", "event is added to %s" % app[:80])
+        # every app is considered: the loop over the apps ends only when the iterator is exhausted (an app without an offer is skipped, not the rest of the list)
+        lp = [L_ for L_ in hv.sccs() if bi in L_]
+        okx = len(lp) == 1
+        if okx:
+            for a_ in lp[0]:
+                for b_ in hv.succ[a_]:
+                    if b_ not in lp[0]:
+                        si_ = guards.switch_info(hv, a_)
+                        if not (si_ is not None and si_.kind == "discr" and (lib.head_call(si_.term) or "").endswith("Iterator::next") and si_.edge_names(hv, b_) == ["None"]):
+                            okx = False
+        R.check("C10-R3", "helper-visits-every-app", okx, "the report loop is left only by exhausting the app list", "the report loop can stop before the end of the app list: offered apps after that point are missing from the report", lib.loc(hv, bi))
     # inline per-app events
     inl = [(bi, t) for bi, t in hb.calls() if lib.callee_is(t, "add_event")]
     if R.floor("C10-R3", "per-app add_event in the check flow", len(inl), 1):
